@@ -41,6 +41,14 @@ theorem loop_needs_neutral_body (b : Comp) (k : Int) (hk : k ≠ 0) (hb : effect
 /-- An unknown component is never assumed harmless. -/
 theorem opaque_refused : effect (.leaf .opaque) = none := rfl
 
+/-- The recorded ILS defect, exhibited on the model: one outer pass (the nested local search makes no pass
+of its own) of the shipped `real_ils` tree, as regenerated from the code, ends with TWO populations on the
+stack and the pass is not height-neutral. (`real_ils_v*_balanced` below only says the analysis refuses the tree.) -/
+theorem ils_leak_exhibited :
+    (exec ⟨fun t => t == 3, fun _ => false, fun _ => 0⟩ 200 real_ils_v0
+      { height := 0, tick := 0, passesBalanced := true }).map (fun s => (s.height, s.passesBalanced))
+      = some (2, false) := by decide
+
 /-! Non-vacuity: a concrete run of a concrete balanced tree. -/
 example : balanced real_ga_v0 = true := by decide
 example : (exec ⟨fun t => t < 40, fun _ => false, fun _ => 0⟩ 200 real_ga_v0
